@@ -59,7 +59,7 @@ def collect(ctx, q):
     rng = random.Random(ctx.seed + 77)
     nf = 40 if q else 800
     for i in range(nf):
-        scens.append({"origin": "free-running", "producer": "simple" if i % 2 == 0 else "erroring", "steps": [], "reqkinds": ["trigger", "pulselengths"],
+        scens.append({"origin": "free-running", "producer": ("simple", "erroring", "simpulse")[i % 3], "steps": [], "reqkinds": ["trigger", "pulselengths"],
                       "free": {"nstop": rng.choice([2, 3, 8]), "delayus": rng.choice([0, 200, 1000, 3000, 10000, 30000]), "rounds": rng.choice([1, 4, 10])}})
     ctx.notes["free_running_schedules"] = nf
     return scens
